@@ -259,6 +259,21 @@ func runHistory(hc histCase) {
 	}
 
 	ctx := context.Background()
+	// reference: the in-memory Store of the same package, when the history starts from a missing
+	// config and uses plain host addresses only (C18_refines_memory_store)
+	var mem credentials.Store
+	if hc.Init == nil && !hc.DisablePut {
+		mem = credentials.NewMemoryStore()
+		for _, o := range hc.Ops {
+			if toHostnameOracle(o.Addr) != o.Addr {
+				mem = nil
+				break
+			}
+		}
+		if mem != nil {
+			run.Count("ref:memory-store")
+		}
+	}
 	var results, digests []string
 	var modelOps []string
 	finalCanon := canonDoc(initDoc)
@@ -278,6 +293,11 @@ func runHistory(hc histCase) {
 				res = credStr(c)
 			}
 			modelOps = append(modelOps, fmt.Sprintf("G %s %s", common.Hex(o.Addr), res))
+			if mem != nil {
+				if mc, merr := mem.Get(ctx, o.Addr); merr != nil || err != nil || mc != c {
+					fail("differs-from-memory-store", fmt.Sprintf("Get(%q): file store %v %v, memory store %v %v", o.Addr, c, err, mc, merr))
+				}
+			}
 			// oracle: read back what was stored / nothing after a delete
 			if p := lastPut[o.Addr]; p != nil {
 				if err != nil || c != p.cred() {
@@ -322,6 +342,9 @@ func runHistory(hc histCase) {
 				if err != nil {
 					fail("put-error", fmt.Sprintf("Put(%q) failed: %v", o.Addr, err))
 				} else {
+					if mem != nil {
+						mem.Put(ctx, o.Addr, o.cred())
+					}
 					oo := o
 					lastPut[o.Addr] = &oo
 					touched[o.Addr] = true
@@ -343,6 +366,9 @@ func runHistory(hc histCase) {
 			if err != nil {
 				fail("delete-error", fmt.Sprintf("Delete(%q) failed: %v", o.Addr, err))
 			} else {
+				if mem != nil {
+					mem.Delete(ctx, o.Addr)
+				}
 				delete(wantEntry, o.Addr)
 				delete(lastPut, o.Addr)
 				touched[o.Addr] = true
